@@ -190,10 +190,10 @@ def _nops(s):
 
 
 class _Runner:
-    def __init__(self, ck: Check):
+    def __init__(self, ck: Check, nproc=8):
         self.ck = ck
         ncpu = os.cpu_count() or 1
-        self.nproc = max(2, min(8, ncpu // 2))
+        self.nproc = max(2, min(nproc, ncpu // 2))
         self.pool = ProcessPoolExecutor(self.nproc, mp_context=multiprocessing.get_context("fork"))
         list(self.pool.map(_spawn, range(self.nproc)))  # fork the workers before any thread exists
         self.warm = [self.pool.submit(_warm, i) for i in range(self.nproc)]  # import while TLC runs
@@ -369,11 +369,11 @@ def run(ck: Check):
     seed = ck.seed
     ck.rule = (
         "TLC (spec/MC_SetExpr.tla) enumerates expression trees over {name, &, |, -, ^, ~}: every tree of depth <= 2 "
-        "over all 15 names for every (workload, Einsum) of a 9-workload family; every tree of depth <= 3 over 4-name "
-        "alphabets for 2 (workload, Einsum) pairs (quick) / 7-name alphabets for 3 pairs x 2 alphabets (thorough), pairs "
+        "over all 15 names for every (workload, Einsum) of a 9-workload family; every tree of depth <= 3 over a 4-name "
+        "alphabet for 1 (workload, Einsum) pair (quick) / 7-name alphabets for 3 pairs x 2 alphabets (thorough), pairs "
         "selected by VERIF_SEED; random trees of "
         "depth <= 4 and <= 5 over random workloads of 1-4 Einsums (-simulate). Dictionaries: all 0-2 key dictionaries "
-        "over <= 18 keys with Other absent / in every position (2 pairs quick, all 20 thorough), and random 0-3 key "
+        "over <= 18 keys with Other absent / in every position (1 pair quick, all 20 thorough), and random 0-3 key "
         "dictionaries. Expected set / "
         "assignment / 'error' = SetExpr!Eval, Assign, Overlap evaluated by TLC. Each string is evaluated in its fully "
         "parenthesised and its minimally parenthesised (Python precedence) form. Non-trivial expression = at least one "
@@ -393,17 +393,17 @@ def run(ck: Check):
         "no Einsum reads its own output; rename sources use only named sets (a tensor name that is not in the Einsum "
         "is undefined inside a rename source, although it is the empty set in architecture expressions)",
     ]
-    R = _Runner(ck)
+    R = _Runner(ck, nproc=8 if thorough else 4)
     try:
         npairs = 20
         p1 = (3 * seed + 1) % npairs + 1
         p2 = (3 * seed + 8) % npairs + 1
         jobs = []
         if not thorough:
-            # one TLC run: depth <= 2 for the family, depth <= 3 for two pairs, dictionaries of the two pairs
-            jobs.append(("quick:pairs%d,%d" % (p1, p2), "MC_SetExpr", "MC_SetExpr_quick.cfg",
-                         {"env": {"C22_PAIR": p1, "C22_PAIR2": p2}, "timeout": 1500}))
-            nrand = 1500
+            # one TLC run: depth <= 2 for the family, depth <= 3 for one pair, dictionaries of one pair
+            jobs.append(("quick:pair%d:alpha%d:dictpair%d" % (p1, 2 + seed % 2, p2), "MC_SetExpr", "MC_SetExpr_quick.cfg",
+                         {"env": {"C22_PAIR": p1, "C22_PAIR2": p2, "C22_ALPHA": 2 + seed % 2}, "timeout": 1500}))
+            nrand = 1000
         else:
             jobs.append(("d2", "MC_SetExpr", "MC_SetExpr_d2.cfg", {"timeout": 1500}))
             for p, a in [((3 * seed + 1 + 5 * i) % npairs + 1, a) for i in range(3) for a in (0, 1)]:
@@ -414,9 +414,11 @@ def run(ck: Check):
         jobs.append(("rand", "MC_SetExpr", "MC_SetExpr_rand.cfg",
                      {"simulate": "num=1", "timeout": 3000, "depth": nrand, "seed": seed * 1000 + 4}))
         # role A: the dictionary algorithm as a transition system (spec/SetExprOtherAlg.tla)
-        jobs.append(("roleA:other-last", "SetExprOtherAlg", "SetExprOtherAlg_last.cfg",
-                     {"coverage": True, "workers": 2, "timeout": 1500}))
+        # (it does not depend on the code under test; run in the thorough tier only, the quick tier must stay
+        # short on a shared machine)
         if thorough:
+            jobs.append(("roleA:other-last", "SetExprOtherAlg", "SetExprOtherAlg_last.cfg",
+                         {"coverage": True, "workers": 2, "timeout": 1500}))
             jobs.append(("roleA:dict-order", "SetExprOtherAlg", "SetExprOtherAlg_dictorder.cfg",
                          {"coverage": True, "workers": 2, "timeout": 1500}))
         # longest first
@@ -453,7 +455,7 @@ def run(ck: Check):
                              "replay_s": round(time.time() - t0, 1)}
             del recs, res
         ck.extra["timing"] = timing
-        ck.extra["role_A"] = ("SetExprOtherAlg: subtracting every evaluated key from a running remainder and evaluating "
+        ck.extra["role_A"] = "run in the thorough tier only" if not thorough else ("SetExprOtherAlg: subtracting every evaluated key from a running remainder and evaluating "
                               "Other last satisfies Correct (= SetExpr!Overlap/Assign/ExactlyOnce) for all dictionaries "
                               "of <= 3 keys over 3 tensors (%s); evaluating Other in dictionary order violates it (%s)"
                               % (roleA.get("other_last"), roleA.get("dict_order", "lemma run in the thorough tier only")))
